@@ -2712,6 +2712,15 @@ func c13GenOffsetSweep(c *Ctx) {
 		b := r.Range(0, rest)
 		emit([5]int{a, b, rest - b, r.Range(0, 3), 0}, nFD, r.Intn(3), "window 1131/1132")
 	}
+	// (c') deepest cascades seen (6 passes): CID-keyed fonts with 2-3 FDs, every total near the threshold
+	for total := 1000; total <= 1150; total++ {
+		for _, nFD := range []int{2, 3} {
+			if !thorough && nFD == 2 && total%3 != 0 {
+				continue
+			}
+			emit([5]int{20, total - 20, 0, 0, 0}, nFD, 0, "window 1131/1132 (CID, every total)")
+		}
+	}
 	// (d) the third threshold: totals around 32767
 	step := 7
 	if thorough {
